@@ -4,7 +4,7 @@ From PcoreV Require Import Model.Base Model.StringHash.
 Import ListNotations.
 
 Definition sh_check (c : list op * list out) : bool :=
-  list_eqb out_eqb (snd (run [] (fst c))) (snd c).
+  list_eqb out_eqb (go_views (fst c) (snd (run [] (fst c)))) (snd c).
 Definition sh_mismatches (cs : list (list op * list out)) : list N := failing sh_check cs.
 
 (* Array / Hash half: the pure model of the List / OrderedMap operations (Model/Coll.v) against the
